@@ -85,6 +85,9 @@ class C05(Check):
                     op['ts'] = 'device'
                 if kind == 'assign_invalid':
                     op['v'] = rng.choice([None, 'zz\0'])
+                    if p['di']['type'] == 'blob':
+                        # the receive buffer of the driver itself (a mutable bytearray, not bytes)
+                        op['v'] = rng.choice([None, 'zz\0', 'bytearray'])
                 ops.append(op)
         rng.shuffle(ops)
         shape = {'p_switch': rng.choice([0.1, 0.3, 0.6]), 'line_gaps': rng.choice([0, 0, 8, 12, 15]),
@@ -205,7 +208,7 @@ class C05(Check):
                     rec['same_v'] = dtgen.to_wire(di, cur)     # (with several tasks this is a read-modify-write)
                     setattr(mobj, pname, cur)
                 elif kind == 'assign_invalid':
-                    setattr(mobj, pname, op['v'])
+                    setattr(mobj, pname, bytearray(b'\x01\x02') if op['v'] == 'bytearray' else op['v'])
                 elif kind in ('announce_err', 'announce_err_same'):
                     tok = op['tok'] if kind == 'announce_err' else last_err_tok.get((mname, pname), op['tok'])
                     last_err_tok[mname, pname] = tok
